@@ -31,7 +31,7 @@ use crate::with_scope;
 use crate::utils::type_name_of; // for debugging
 
 // traits
-use synast::{HasArgList, HasName, HasTextNode};
+use synast::{AstNode, HasArgList, HasName, HasTextNode};
 
 macro_rules! not_impl {
     ($ctx:expr, $node:expr) => {{
@@ -1107,10 +1107,25 @@ fn literal_to_asg_texpr(literal: &synast::Literal) -> Option<asg::TExpr> {
 // We don't convert to asg::Block, because these lists of statements go into
 // other block-like structures as well.
 fn block_expr_to_asg_stmt_list(block: synast::BlockExpr, context: &mut Context) -> Vec<asg::Stmt> {
-    block
+    let mut stmts = block
         .statements()
         .filter_map(|syn_stmt| stmt_to_asg_stmt(syn_stmt, context))
-        .collect::<Vec<_>>()
+        .collect::<Vec<_>>();
+    // A nested block that ends the enclosing block, `{ ...; { ... } }`, is not among the
+    // statements: the parser takes it for a tail expression. It is a nested scope all the same;
+    // in particular an `include` inside it has to be reported.
+    let tail = block
+        .syntax()
+        .children()
+        .filter_map(synast::Expr::cast)
+        .last();
+    if let Some(synast::Expr::BlockExpr(inner)) = tail {
+        with_scope!(context, ScopeType::Local,
+                    let inner_block = block_expr_to_asg_type(inner, context);
+        );
+        stmts.push(asg::Stmt::Block(inner_block));
+    }
+    stmts
 }
 
 fn block_expr_to_asg_type(block_synast: synast::BlockExpr, context: &mut Context) -> asg::Block {
